@@ -354,8 +354,14 @@ func (ex *Exec) bigSetBytes(s Slice) BigVal {
 		if b, ok := ex.blobs[s.A]; ok {
 			return BigVal{I: b.I}
 		}
-		if h, ok := ex.digests[s.A]; ok && s.Off == 0 && s.Len == len(s.A.E) {
-			return BigVal{I: h}
+		if h, ok := ex.digests[s.A]; ok {
+			n := len(s.A.E)
+			if s.Off == 0 && s.Len == n {
+				return BigVal{I: h}
+			}
+			// a contiguous part of the digest: closed form instead of a byte sum
+			v := smt.Div(h, smt.Pow2(uint(8*(n-s.Off-s.Len))))
+			return BigVal{I: smt.Mod(v, smt.Pow2(uint(8*s.Len)))}
 		}
 	}
 	r := smt.I64(0)
